@@ -56,6 +56,12 @@ static void check_fit(const fitref::Problem& P, uint32_t mono, int nthreads, con
   fitref::Solution S = fitref::solve(P);
   if (!S.spd || !(S.kappa <= 1e8L) || nc > 800) { H->count("ill_posed_or_large_run_for_safety_only"); return; }
   H->count("asserted_fits");
+  ld tscale = (8 * 1.2e-7L + 200 * S.kappa * 2.3e-16L);
+  bool other_smoothing = false; for (size_t d = 0; d < nd; d++) if (d != mono && P.smooth[d] != 0) other_smoothing = true;
+  // (3) inactive constraint => same coefficients as the unconstrained minimiser (the property's own words: asserted whether or not the
+  // solver reached the constrained minimum, which is what the certificate further down looks at)
+  bool inactive = true; for (uint64_t i = 0; i < nc && inactive; i++) { uint64_t j = (i / st[mono]) % na; ld ti = j == 0 ? S.c[i] : S.c[i] - S.c[i - st[mono]]; if (!(ti > 1e-3L * cmax)) inactive = false; }
+  if (inactive) { H->count("inactive_constraint_checks"); for (uint64_t i = 0; i < nc; i++) if (fabsl((ld)c[i] - S.c[i]) > 4 * tscale * cmax * (ld)na) { H->violation(std::string("inactive-constraint-but-different-from-unconstrained-fit:") + (other_smoothing ? "smoothing-in-a-non-monotonic-dimension:" : "") + key, where + vf::fmt(" coefficient %llu: %.9g vs %.9g", (unsigned long long)i, (double)c[i], (double)S.c[i])); break; } }
   // The certificate uses the objective AS IMPLEMENTED: in the increments t (c = T t) the data term is T'FT, the penalty of the
   // monotonic dimension is T'P T, and the penalties of the OTHER dimensions are applied to t directly (identity where T'T would
   // stand).  For one dimension, or when only the monotonic dimension is smoothed, this is the objective of the property.
@@ -66,7 +72,6 @@ static void check_fit(const fitref::Problem& P, uint32_t mono, int nthreads, con
     Tt_apply(P, mono, v); Tt_apply(P, mono, va);
     for (uint64_t i = 0; i < nc; i++) { g[i] = v[i]; gabs[i] = va[i]; } }
   for (size_t d = 0; d < nd; d++) if (d != mono && S.pen[d].n) for (uint64_t i = 0; i < nc; i++) for (uint64_t j = 0; j < nc; j++) { ld m = (ld)P.smooth[d] * S.pen[d](i, j) * tv[j]; g[i] += m; gabs[i] += fabsl(m); }
-  ld tscale = (8 * 1.2e-7L + 200 * S.kappa * 2.3e-16L);
   for (uint64_t i = 0; i < nc; i++) {
     ld ti = tv[i];
     ld tol = 64 * tscale * gabs[i] * (ld)na + 4 * (ld)nc * 2.2e-16L * 1e5L;   // rounding of the float coefficients + the solver's own stopping tolerance (n*eps*1e5, absolute)
@@ -76,10 +81,6 @@ static void check_fit(const fitref::Problem& P, uint32_t mono, int nthreads, con
       // and the property-level oracles below are skipped for a fit that is not the minimiser
       H->count("fits_not_at_the_constrained_minimum_(reported_by_C11)"); H->note("not the constrained minimiser: " + where + vf::fmt(" increment %llu = %.6g, gradient %.6g (tolerance %.3g)", (unsigned long long)i, (double)ti, (double)g[i], (double)tol)); return; }
   }
-  bool other_smoothing = false; for (size_t d = 0; d < nd; d++) if (d != mono && P.smooth[d] != 0) other_smoothing = true;
-  // (3) inactive constraint => same coefficients as the unconstrained minimiser
-  bool inactive = true; for (uint64_t i = 0; i < nc && inactive; i++) { uint64_t j = (i / st[mono]) % na; ld ti = j == 0 ? S.c[i] : S.c[i] - S.c[i - st[mono]]; if (!(ti > 1e-3L * cmax)) inactive = false; }
-  if (inactive) { H->count("inactive_constraint_checks"); for (uint64_t i = 0; i < nc; i++) if (fabsl((ld)c[i] - S.c[i]) > 4 * tscale * cmax * (ld)na) { H->violation(std::string("inactive-constraint-but-different-from-unconstrained-fit:") + (other_smoothing ? "smoothing-in-a-non-monotonic-dimension:" : "") + key, where + vf::fmt(" coefficient %llu: %.9g vs %.9g", (unsigned long long)i, (double)c[i], (double)S.c[i])); break; } }
   // brute-force cross-check of the certificate on small problems
   if (nc <= 10 && !other_smoothing) {
     la::Mat NT(nc, nc); std::vector<ld> rT = S.rhs; Tt_apply(P, mono, rT);
@@ -116,11 +117,34 @@ static void run_nd(uint64_t idx) {
   check_fit(C.P, C.mono, C.nthreads, vf::fmt("d=%d:data=%s", C.d, mp::DN[C.dk]), C.where);
 }
 
+
+// data that leave part of the monotonic axis uncovered: there the fit is determined by the penalty alone, increments whose
+// right-hand side is zero start out bound in the solver and must be released for the constraint to be inactive
+static void run_gaps(uint64_t idx) {
+  static const vf::Radix R{3, 2, 3, 4, 3, 3, 2};
+  auto v = R.decode(idx);
+  int shape = v[0]; uint32_t po = 1 + v[1]; uint32_t order = 1 + v[2]; int cov = v[3], fn = v[4]; static const double LAM[] = {1e-2, 1, 100}; double lam = LAM[v[5]]; int nthreads = v[6] ? 3 : 1;
+  if (po > order) return;
+  int d = shape == 0 ? 1 : 2; uint32_t mono = shape == 2 ? 1 : 0;
+  fitref::Problem P;
+  for (int i = 0; i < d; i++) { uint32_t o = (uint32_t)i == mono ? order : 2; size_t nb = (uint32_t)i == mono ? 8 : 3; P.order.push_back(o); P.knots.push_back(tg::make_knots(tg::K_UNIFORM, o, nb + o + 1, 0.2 * i)); P.coords.push_back(mp::pts(P.knots[i], o, (uint32_t)i == mono ? 16 : 4)); P.smooth.push_back((uint32_t)i == mono ? lam : 0.0); P.porder.push_back((uint32_t)i == mono ? po : 1); }
+  static const char* CN[] = {"lower-half-only", "lower-third-only", "upper-half-only", "both-ends-only"}; static const char* FN[] = {"linear", "quadratic", "step"};
+  size_t nm = P.coords[mono].size(), no = d == 2 ? P.coords[1 - mono].size() : 1;
+  for (unsigned a = 0; a < nm; a++) {
+    double u = (a + 0.5) / nm; bool covered = cov == 0 ? u < 0.5 : (cov == 1 ? u < 0.34 : (cov == 2 ? u > 0.5 : (u < 0.3 || u > 0.7)));
+    if (!covered) continue;
+    for (unsigned b = 0; b < no; b++) { std::vector<unsigned> ix(d); ix[mono] = a; if (d == 2) ix[1 - mono] = b; P.idx.push_back(ix); double y = fn == 0 ? 1 + 3 * u : (fn == 1 ? 0.5 + 4 * u * u : (u < 0.25 ? 1.0 : 2.5)); P.y.push_back(y * (1 + 0.25 * b)); P.w.push_back(1.0); }
+  }
+  std::string where = vf::fmt("[gaps d=%d monodim=%u order=%u penalty-order=%u coverage=%s data=%s lambda=%g threads=%d]", d, mono, order, po, CN[cov], FN[fn], lam, nthreads);
+  H->hint(where);
+  check_fit(P, mono, nthreads, vf::fmt("d=%d:gaps:%s", d, CN[cov]), where);
+}
+
 int main(int argc, char** argv) {
   vf::Harness h("C10", argc, argv);
   H = &h;
   h.meta("level", "exploration");
-  h.meta("rule", "complete walk: (a) one-dimensional data lattice: EVERY y in {0,1,3}^8 (6561 data sets) x orders {1,2} x lambda {0,1e-2} x worker counts {1,3}; (b) d=1..3 x every monotonic dimension x 4 order vectors (orders 1..4) x 8 data patterns (increasing, decreasing, constant, oscillating, spike, noisy, all negative, all zero) x {unit, seeded} weights x 3 smoothing strengths x {dense, sparse} x worker counts {1,3}; oracle: stored coefficients non-decreasing on every fibre (exact float comparison), derivative from ndsplineeval >= -rounding on a grid over every supported knot interval, equality with the unconstrained reference minimiser when that is itself non-negative and non-decreasing (constraint inactive); the KKT certificate / brute-force optimum of the constrained problem is computed too but only counted here, because optimality of the solver is property C11, whose check feeds these very systems to every solver; distinct = (dimension/data class, constraint active?, line search entered?)");
+  h.meta("rule", "complete walk: (a) one-dimensional data lattice: EVERY y in {0,1,3}^8 (6561 data sets) x orders {1,2} x lambda {0,1e-2} x worker counts {1,3}; (b) d=1..3 x every monotonic dimension x 4 order vectors (orders 1..4) x 8 data patterns (increasing, decreasing, constant, oscillating, spike, noisy, all negative, all zero) x {unit, seeded} weights x 3 smoothing strengths x {dense, sparse} x worker counts {1,3}; (c) gaps: d=1 and d=2 (either monotonic dimension) x penalty order {1,2} x order {1,2,3} x data covering only the lower half / lower third / upper half / both ends of the monotonic axis x {linear, quadratic, step} increasing data x lambda {1e-2,1,100} along the monotonic dimension x worker counts {1,3}; oracle: stored coefficients non-decreasing on every fibre (exact float comparison), derivative from ndsplineeval >= -rounding on a grid over every supported knot interval, equality with the unconstrained reference minimiser when that is itself non-negative and non-decreasing (constraint inactive); the KKT certificate / brute-force optimum of the constrained problem is computed too but only counted here, because optimality of the solver is property C11, whose check feeds these very systems to every solver; distinct = (dimension/data class, constraint active?, line search entered?)");
   h.meta("assumption", "reference: ref/fit_ref.hpp + ref/linalg_ref.hpp; certificate asserted for condition <= 1e8 and <= 800 coefficients");
   h.meta("require_fits_that_entered_the_line_search", "20");
   h.meta("require_fits_with_active_constraints", "500");
@@ -129,5 +153,6 @@ int main(int argc, char** argv) {
   h.timeout_s = 60;
   h.add_space("lattice", 6561ull * (h.thorough ? 8 : 4), run_lattice);
   h.add_space("nd", mp::ND_SIZE, run_nd);
+  h.add_space("gaps", 3ull * 2 * 3 * 4 * 3 * 3 * 2, run_gaps);
   return h.main();
 }
